@@ -1,5 +1,10 @@
 package main
 
+import (
+	"os"
+	"strconv"
+)
+
 // Commands of the database-level properties that share the history runner.
 
 func init() {
@@ -7,6 +12,18 @@ func init() {
 	commands["C03"] = func(o Opts) { runDBProfile(o, profC03, postC03) }
 	preRecords["C03"] = goldenRecords
 	commands["C06"] = func(o Opts) { runDBProfile(o, profC06, nil) }
+	preRecords["C06"] = func(work string) []Record {
+		var out []Record
+		n := 60
+		if os.Getenv("VERIF_TIER_INTERNAL") == "thorough" {
+			n = 2000
+		}
+		seed, _ := strconv.ParseUint(os.Getenv("VERIF_SEED_INTERNAL"), 10, 64)
+		for i := 0; i < n; i++ {
+			out = append(out, runConcAudit(work, i, genConc(seed, i)))
+		}
+		return out
+	}
 	commands["C09db"] = func(o Opts) { runDBProfile(o, profC09, nil) }
 	commands["C04db"] = func(o Opts) { runDBProfile(o, profC04, nil) }
 }
